@@ -48,3 +48,11 @@ Theorem C18_events_identical_with_additions : forall W M HT can_transfer transfe
   forall fuel, PR W M HT can_transfer transfer balance_of exists_acct create_account code_of collides get_nonce set_nonce acl_add set_code touch is_homestead is_eip158 is_berlin is_london max_code_size is_precompile precompile local_step init_machine keccak debug jpA alA aspA jpR alR bR aspR t0 fuel.
 Proof. exact additions_invisible. Qed.
 Print Assumptions C18_events_identical_with_additions.
+
+From Verif Require Import Gen.Tables Gen.GOpNames.
+(** the opcode NAMES every tracer prints (struct logger, markdown logger, error texts) are go-ethereum's for all 256 bytes but the
+    thirteen Artela renumbered or added, which carry the reviewed names; and StringToOp inverts String on every defined opcode
+    — read from the live name tables of both code bases on every run *)
+Theorem C18_opcode_names : op_names_ok = true.
+Proof. exact gen_op_names. Qed.
+Print Assumptions C18_opcode_names.
